@@ -7,6 +7,8 @@ import (
 	"os"
 	"sort"
 	"strconv"
+	"strings"
+	"sync/atomic"
 	"testing"
 	"time"
 )
@@ -78,6 +80,16 @@ type Sample struct {
 // exit code of a worker whose test function was aborted by the race detector
 // after it had written its summary: the orchestrator restarts it behind the aborted run
 const exitAbortedByRace = 3
+
+// exit code of a worker that ended itself because one run made no progress in real time
+const exitAbortedByHang = 4
+
+func propertyOfCheck(check string) string {
+	if len(check) >= 3 {
+		return strings.ToUpper(check[:3])
+	}
+	return strings.ToUpper(check)
+}
 
 type WorkerSummary struct {
 	AbortedAt  int64               `json:"aborted_at"` // -1, or the run during which the race detector ended the worker
@@ -202,6 +214,57 @@ func TestSim(t *testing.T) {
 	}
 	defer writeSummary()
 
+	// Real-time watchdog: the simulator only sees goroutines that block durably (channels, timers,
+	// WaitGroups of the bubble). A goroutine of the system under test stuck on anything else (a mutex,
+	// a spin) would hang synctest.Wait for good. The watchdog ends the worker, records the run as a
+	// hang, and the orchestrator restarts the worker behind it.
+	runTimeout := time.Duration(envInt("VERIF_RUN_TIMEOUT_S", 150)) * time.Second
+	var runStartNs atomic.Int64
+	stopWatch := make(chan struct{})
+	defer close(stopWatch)
+	go func() {
+		tick := time.NewTicker(time.Second)
+		defer tick.Stop()
+		for {
+			select {
+			case <-stopWatch:
+				return
+			case <-tick.C:
+				st := runStartNs.Load()
+				if st == 0 || time.Since(time.Unix(0, st)) < runTimeout {
+					continue
+				}
+				r := inflight
+				res := &Result{Verdict: "violation", Property: propertyOfCheck(check), Oracle: "hang",
+					Attrs:  map[string]string{"kind": "no_progress_in_real_time"},
+					Detail: fmt.Sprintf("run %d made no progress for %v of real time: a goroutine of the system under test is stuck on something that is not a durable block (mutex, spin), or the run is unboundedly long", curRun, runTimeout)}
+				if r != nil {
+					res.Trace = append([]string{}, r.lines...)
+					res.Tape = r.Tape.Recorded()
+					res.Detail += "; last trace lines: " + strings.Join(truncateListTail(res.Trace, 6), " | ")
+				}
+				res.Known = matchKnown(known, res)
+				vs := &ViolationSummary{Class: classOf(res), Property: res.Property, Oracle: res.Oracle, Attrs: res.Attrs,
+					Detail: res.Detail, Known: res.Known, Count: 1, FirstRun: curRun}
+				if replayDir != "" && res.Known == "" {
+					rf := ReplayFile{Property: res.Property, Check: check, Tier: tier, Seed: seed, Run: curRun, Oracle: res.Oracle,
+						Attrs: res.Attrs, Detail: res.Detail, TraceHash: "hang", Tape: nil, Trace: res.Trace}
+					path := fmt.Sprintf("%s/%s-%s-s%d-r%d.json", replayDir, res.Property, check, seed, curRun)
+					data, _ := json.MarshalIndent(rf, "", " ")
+					if err := os.WriteFile(path, data, 0644); err == nil {
+						vs.Replay = path
+					}
+				}
+				sum.Violations = append(sum.Violations, vs)
+				sum.AbortedAt = curRun
+				sum.Runs++
+				finished = true // the deferred writer must not treat this as a race abort
+				writeSummary()
+				os.Exit(exitAbortedByHang)
+			}
+		}
+	}()
+
 	var dump *bufio.Writer
 	if dp := os.Getenv("VERIF_DUMP_HASHES"); dp != "" {
 		f, err := os.Create(dp)
@@ -218,10 +281,23 @@ func TestSim(t *testing.T) {
 			break
 		}
 		curRun = run
+		runStartNs.Store(time.Now().UnixNano())
+		if out != "/dev/null" {
+			// which run is in flight, should the process die (a panic in a goroutine of the system under test)
+			os.WriteFile(out+".progress", []byte(strconv.FormatInt(run, 10)), 0644)
+		}
 		raceBefore = raceLogSize()
 		rs := RunSeed(seed, check, run)
 		keep := len(sum.Samples) < 3 && run-from < 3
+		runStart := time.Now()
 		res := execute(t, check, tier, NewGenTape(rs), keep)
+		if slow := envInt("VERIF_SLOW_MS", 0); slow > 0 && time.Since(runStart) > time.Duration(slow)*time.Millisecond {
+			first := ""
+			if len(res.Trace) > 0 {
+				first = res.Trace[0]
+			}
+			fmt.Fprintf(os.Stderr, "slow run %d: %v %s\n", run, time.Since(runStart), first)
+		}
 		sum.Runs++
 		if dump != nil {
 			fmt.Fprintf(dump, "%d %s %s %d\n", run, res.TraceHash, res.Verdict, len(res.Tape))
@@ -329,7 +405,15 @@ func TestSim(t *testing.T) {
 			}
 		}
 	}
+	runStartNs.Store(0)
 	finished = true
+}
+
+func truncateListTail(l []string, n int) []string {
+	if len(l) > n {
+		return l[len(l)-n:]
+	}
+	return l
 }
 
 func doReplay(t *testing.T, path string, known []KnownFinding) {
@@ -347,6 +431,21 @@ func doReplay(t *testing.T, path string, known []KnownFinding) {
 	}
 	raceBefore := raceLogSize()
 	completed := false
+	var tape *Tape
+	if rf.Tape == nil && (rf.Oracle == "hang" || rf.Oracle == "crash") {
+		// recorded without a tape (the run never ended): regenerate it from the seed
+		tape = NewGenTape(RunSeed(rf.Seed, rf.Check, rf.Run))
+	} else {
+		tape = NewReplayTape(rf.Tape)
+	}
+	if rf.Oracle == "hang" {
+		go func() {
+			time.Sleep(time.Duration(envInt("VERIF_RUN_TIMEOUT_S", 150)) * time.Second)
+			fmt.Printf("REPLAY verdict=violation oracle=hang trace_hash=hang identical=true\n")
+			fmt.Printf("VIOLATION property=%s replay=%s\n", rf.Property, path)
+			os.Exit(1)
+		}()
+	}
 	defer func() {
 		// a race build's test function is ended by the race detector right after the racy bubble
 		if completed || inflight == nil || !raceBuild {
@@ -367,7 +466,7 @@ func doReplay(t *testing.T, path string, known []KnownFinding) {
 			exitCode = 2
 		}
 	}()
-	res := execute(t, rf.Check, rf.Tier, NewReplayTape(rf.Tape), true)
+	res := execute(t, rf.Check, rf.Tier, tape, true)
 	completed = true
 	for _, l := range res.Trace {
 		fmt.Println("  " + l)
